@@ -75,22 +75,28 @@ type tally struct {
 // for capacity c that contains exactly `ext` (0 or 1) operations of a2. Every
 // prefix is judged on the way (accessors after every step), and the buffer is
 // drained at the end, so shorter sequences are covered too.
-func enumerate(c, length, ext int, out *tally, mu *sync.Mutex, stop *bool) {
+func enumerate(rec *ev.Recorder, c, length, ext int, out *tally, mu *sync.Mutex, stop *bool) {
 	a1, a2 := alphabets(c)
+	slots := make([]*slot, runtime.GOMAXPROCS(0))
+	for i := range slots {
+		slots[i] = new(slot)
+	}
+	defer watch(rec, slots)()
 	all := append(append([]Op{}, a1...), a2...)
 	type item struct{ i, j int }
 	work := make(chan item, 64)
 	var wg sync.WaitGroup
-	for w := 0; w < runtime.GOMAXPROCS(0); w++ {
+	for w := 0; w < len(slots); w++ {
 		wg.Add(1)
+		sl := slots[w]
 		go func() {
 			defer wg.Done()
 			var r runner
 			var local tally
 			seq := make([]Op, length)
 			cs := Case{Cap: c, Ops: seq}
-			var rec func(pos, used int)
-			rec = func(pos, used int) {
+			var walk func(pos, used int)
+			walk = func(pos, used int) {
 				if local.failure != nil {
 					return
 				}
@@ -99,6 +105,7 @@ func enumerate(c, length, ext int, out *tally, mu *sync.Mutex, stop *bool) {
 						return
 					}
 					v, info := r.judge(&cs)
+					sl.beat()
 					local.evals++
 					if info&IWrap != 0 {
 						local.nts++
@@ -133,12 +140,12 @@ func enumerate(c, length, ext int, out *tally, mu *sync.Mutex, stop *bool) {
 				}
 				for _, o := range a1 {
 					seq[pos] = o
-					rec(pos+1, used)
+					walk(pos+1, used)
 				}
 				if used < ext {
 					for _, o := range a2 {
 						seq[pos] = o
-						rec(pos+1, used+1)
+						walk(pos+1, used+1)
 					}
 				}
 			}
@@ -161,7 +168,9 @@ func enumerate(c, length, ext int, out *tally, mu *sync.Mutex, stop *bool) {
 				if used > ext {
 					continue
 				}
-				rec(2, used)
+				sl.enter(&cs)
+				walk(2, used)
+				sl.leave()
 				if local.failure != nil {
 					mu.Lock()
 					*stop = true
@@ -211,7 +220,7 @@ func runExhaustive(t *testing.T, part string, ext int, length int, what string) 
 	for c := 0; c <= 4; c++ {
 		var tl tally
 		stop := false
-		enumerate(c, length, ext, &tl, &mu, &stop)
+		enumerate(rec, c, length, ext, &tl, &mu, &stop)
 		rec.EvalN(tl.evals)
 		rec.NonTrivialDistinct(tl.nts)
 		rec.ClassN(fmt.Sprintf("cap/%d", c), tl.evals)
@@ -350,6 +359,8 @@ func TestRandom(t *testing.T) {
 		t.Skip("replaying")
 	}
 	rec := ev.New(t, prop, "random-runs", "rapid: capacity -1..70000, up to 200 operations drawn relative to the current free/used counts, readers that fail at / around the requested count and return short counts, writers that fail short at / around the queued amount; "+ntRule)
+	sl := new(slot)
+	defer watch(rec, []*slot{sl})()
 	ev.Check(t, rec, 20000, 200000, func(rt *rapid.T) {
 		capacity, class := drawCapacity(rt)
 		steps := rapid.IntRange(1, 200).Draw(rt, "steps")
@@ -359,11 +370,14 @@ func TestRandom(t *testing.T) {
 		var r runner
 		r.begin(capacity)
 		c := &Case{Cap: capacity}
+		sl.enter(c)
+		defer sl.leave()
 		rec.Eval()
 		rec.Class(class)
 		for i := 0; i < steps; i++ {
 			o := drawOp(rt, r.cap, len(r.q))
 			c.Ops = append(c.Ops, o)
+			sl.beat()
 			if v := r.stepSafe(o); v != "" {
 				ev.Failf(rt, rec, c, "%s | %s", short(c), v)
 			}
@@ -402,9 +416,12 @@ func TestReplay(t *testing.T) {
 		t.Fatalf("cannot load replay: %v", err)
 	}
 	rec := ev.New(t, prop, "replay", "replay of a saved case")
+	rec.Eval()
+	if !finishes(&c, hangLimit) {
+		ev.FailTB(t, rec, &c, "%s | the operation sequence does not terminate (no result within %v)", short(&c), hangLimit)
+	}
 	var r runner
 	v, _ := r.judge(&c)
-	rec.Eval()
 	if v != "" {
 		ev.FailTB(t, rec, &c, "%s | %s", short(&c), v)
 	}
